@@ -383,6 +383,34 @@ fn streams(c: &Corpus, chk: &mut Check, tier: Tier) {
             if pos != stream.len() {
                 return Err(format!("stream-length|consumed {} of {}", pos, stream.len()));
             }
+            // the same stream through the tokio and async-std readers, the transport handing out the rest of the stream
+            // in pieces (cuts inside and right after the header): each message must come back whole and leave the
+            // position exactly behind it
+            for flavor in [Flavor::Tokio, Flavor::Astd] {
+                let mut pos = 0usize;
+                for (k, i) in idx.iter().enumerate() {
+                    let rest = &stream[pos..];
+                    let sched = match (k + idx[0] + idx.len()) % 5 {
+                        0 => Schedule::single_bytes(rest.len().min(12), 0),
+                        1 => Schedule { steps: vec![(1, 3), (0, 1), (1, 1)] },
+                        2 => Schedule { steps: vec![(0, 2), (0, 2), (1, 1), (0, 1)] },
+                        3 => Schedule { steps: vec![(0, 5), (1, 1)] },
+                        _ => Schedule { steps: vec![(0, 1), (0, 4), (0, 1)] },
+                    };
+                    match ep.read_async(flavor, rest, &sched) {
+                        Outcome::Ok { debug, consumed, .. } => {
+                            if debug != pool.frames[*i].2 {
+                                return Err(format!("stream-value-{}|message {} of the stream ({}) comes back differently through the {} reader under pieces {:?}", flavor.name(), k, pool.frames[*i].0, flavor.name(), sched.steps));
+                            }
+                            if consumed != pool.frames[*i].1.len() {
+                                return Err(format!("stream-consumed-{}|message {} ({}) consumed {} of {} through the {} reader under pieces {:?}", flavor.name(), k, pool.frames[*i].0, consumed, pool.frames[*i].1.len(), flavor.name(), sched.steps));
+                            }
+                            pos += consumed;
+                        }
+                        other => return Err(format!("stream-rejected-{}|message {} ({}) through the {} reader under pieces {:?}: {}", flavor.name(), k, pool.frames[*i].0, flavor.name(), sched.steps, other.short())),
+                    }
+                }
+            }
             Ok(())
         });
         if let Some((idx, msg)) = fail {
@@ -560,7 +588,7 @@ pub fn run(tier: Tier, replay: Option<String>) -> i32 {
             }
         }
     }
-    c.rule = "(a) per message: the header each writer emits for every encoding of the directed enumeration (opcode, size field = bytes that follow, 2/3-byte form), the reader's position after Ok and after an error on a damaged body; (b) body-length sweeps of messages with a free u8[-] tail: every length 0..64, 0x7FF0..0x8010, 0xFFF0..0x10010, Wrath server up to 0x7FFFFD, decode + re-write; (c) proptest sequences of 1..12 written messages on one stream through the opcode-enum readers and through the typed expect_* helpers (sync, tokio, async-std; optionally expecting a wrong type first). Non-trivial = length within 8 of a header boundary, a stream of >= 2 messages, or a non-empty body; distinct = (entry, control shape) / (endpoint, message, length) / (endpoint, flavor, message name sequence).".into();
+    c.rule = "(a) per message: the header each writer emits for every encoding of the directed enumeration (opcode, size field = bytes that follow, 2/3-byte form), the reader's position after Ok and after an error on a damaged body; (b) body-length sweeps of messages with a free u8[-] tail: every length 0..64, 0x7FF0..0x8010, 0xFFF0..0x10010, Wrath server up to 0x7FFFFD, decode + re-write; (c) proptest sequences of 1..12 written messages on one stream through the opcode-enum readers (blocking on the whole stream; tokio and async-std with the transport handing out pieces cut inside and right after each header) and through the typed expect_* helpers (sync, tokio, async-std; optionally expecting a wrong type first). Non-trivial = length within 8 of a header boundary, a stream of >= 2 messages, or a non-empty body; distinct = (entry, control shape) / (endpoint, message, length) / (endpoint, flavor, message name sequence).".into();
     c.assume("streams are built from frames the library itself wrote (re-encodings of canonical encodings it accepted)");
     c.assume("the documented 0x2800 limit of client messages is part of the reader contract: longer client bodies may be rejected with InvalidSize");
     let only = std::env::var("VERIF_ONLY").ok();
